@@ -171,6 +171,21 @@ def run_scenario(job, sc, node_dir):
                 except (OSError, ValueError):
                     pass
 
+    # environment of this execution (the reference node runs with the environment of the harness)
+    for k, v in cfg.get("env", {}).items():
+        v = v.replace("{node}", node_dir)
+        if k in ("TMPDIR", "HOME"):
+            os.makedirs(v, exist_ok=True)
+        os.environ[k] = v
+    if "TZ" in cfg.get("env", {}):
+        import time as _time
+
+        _time.tzset()
+    if "TMPDIR" in cfg.get("env", {}):
+        import tempfile as _tempfile
+
+        _tempfile.tempdir = None
+
     import logging
     import whatshap.__main__ as wm
 
